@@ -1,14 +1,14 @@
 INIT Init
 NEXT Next
 VIEW View
-INVARIANTS Emit Identities
+INVARIANTS Emit
 CHECK_DEADLOCK FALSE
 CONSTANTS
-  Mode = "fn"
-  MaxDepth = 2
-  W1 = "core"
-  W2 = "core"
-  W3 = "core"
+  Mode = "wrap"
+  MaxDepth = 3
+  W1 = "full"
+  W2 = "full"
+  W3 = "full"
   SlRange = 2
-  EmitAst = FALSE
+  EmitAst = TRUE
   KnownDeviations = {"filter-on-non-array", "merge-no-override", "operator-before-pipe", "pipe-into-literal", "argument-context-leak", "projection-skips-null", "sort-singleton", "null-vs-reference-equality", "parenthesised-operand", "multiselect-leading-star", "by-key-error-ignored"}
